@@ -170,16 +170,58 @@ def build_frame(fr):
 
 
 # --------------------------------------------------------- frame expressions
-def ev(e):
-    """evaluate a frame expression on the real library"""
+def full_snapshot(tf):
+    """everything a user can see of a frame: cells, names (deep copy), y, len, num_cols, and whether it still validates"""
+    try:
+        snap = read_frame(tf)
+        snap["num_cols"] = tf.num_cols
+        try:
+            tf.validate()
+            snap["validates"] = True
+        except Exception as ex:
+            snap["validates"] = type(ex).__name__
+        return snap
+    except Exception as ex:
+        return {"unreadable": type(ex).__name__ + ": " + str(ex)[:120]}
+
+
+def ev(e, env=None, log=None):
+    """evaluate a frame expression on the real library.  env: objects bound by {"op": "ref", "i": k} (reused, not
+    rebuilt); log: list receiving a record for every input of a cat that is not the same after the cat as before."""
     op = e["op"]
+    if op == "ref":
+        return env[e["i"]]
     if op == "build":
         return build_frame(e["frame"])
     if op == "sel":
-        return ev(e["of"])[R.to_py_index(e["idx"])]
+        return ev(e["of"], env, log)[R.to_py_index(e["idx"])]
     if op == "cat":
-        return torch_frame.cat([ev(p) for p in e["parts"]], e["dim"])
+        parts = [ev(p, env, log) for p in e["parts"]]
+        if log is None:
+            return torch_frame.cat(parts, e["dim"])
+        snaps = [full_snapshot(p) for p in parts]
+        try:
+            return torch_frame.cat(parts, e["dim"])
+        finally:
+            for k, (p, before) in enumerate(zip(parts, snaps)):
+                after = full_snapshot(p)
+                if after != before:
+                    log.append({"part": k, "dim": e["dim"], "before": before, "after": after})
     raise ValueError(op)
+
+
+def subst(e, env_exprs):
+    """the pure expression denoted by e: every reference replaced by the expression it is bound to"""
+    if e is None:
+        return None
+    op = e["op"]
+    if op == "ref":
+        return subst(env_exprs[e["i"]], env_exprs)
+    if op == "build":
+        return e
+    if op == "sel":
+        return dict(e, of=subst(e["of"], env_exprs))
+    return dict(e, parts=[subst(p_, env_exprs) for p_ in e["parts"]])
 
 
 # ---------------------------------------------------------- observation
